@@ -98,7 +98,7 @@ class JointDistribution:
         logd = 0
         for density in self._densities:
             logd_kwargs = {key:value for (key,value) in kwargs.items() if key in density.get_parameter_names()}
-            logd += density.logd(**logd_kwargs)
+            logd = logd + density.logd(**logd_kwargs) # not in-place: the first term may be an array that cannot hold the broadcast sum
 
         return logd
 
